@@ -874,7 +874,16 @@ def rule_input_index_bounded(ctx: Ctx, rep: Report) -> None:
            f"`{i}` is not held to the transaction's inputs before `{tx}.vin[{i}]` is read (refusals: {[c.show() for c in cs][:4]}): an index past the end is an IndexError")
     same = has(cs, f"len({pv})", "!=", f"len({tx}.vin)") is not None or has(cs, f"len({tx}.vin)", "!=", f"len({pv})") is not None
     rep.ob(rule, "verify_input:prevouts", same, fi.where(), "one previous output per input" if same else f"`{pv}` is not held to one entry per input: `{pv}[{i}]` of a shorter list is an IndexError")
-    rep.floor(rule, 2)
+    # the same question of the other public function that indexes two caller lists with a caller number
+    f2 = ctx.func("btclib.ecc.musig2.partial_sig_verify")
+    idx = f2.params()[-1]
+    cs2 = refusal_constraints(ctx, f2)
+    lists = [x.value.id for x in own_nodes(f2.node) if isinstance(x, ast.Subscript) and isinstance(x.slice, ast.Name) and x.slice.id == idx and isinstance(x.value, ast.Name)]
+    lo = has_bound(cs2, "<", 0, subject=idx) is not None or has_bound(cs2, "<=", -1, subject=idx) is not None
+    up = any(has(cs2, idx, ">=", f"len({l_})") is not None or has(cs2, idx, ">", f"len({l_}) - 1") is not None for l_ in lists)
+    rep.ob(rule, "partial_sig_verify:index", bool(lists) and lo and up, f2.where(), f"`{idx}` is held to the signers' lists {sorted(set(lists))}" if lists and lo and up else
+           f"`{idx}` indexes {sorted(set(lists))} unasked (refusals: {[c.show() for c in cs2][:3]}): a signer index past the lists is an IndexError out of a predicate")
+    rep.floor(rule, 3)
 
 
 RULES = [
